@@ -485,3 +485,101 @@ func distribute(base, suffix string) string {
 	}
 	return strings.Join(parts, "|")
 }
+
+// flowsOnlyVia decides, flow-insensitively over the definitions of locals, whether every
+// data path from a source expression into e passes through a sanitizer call. Calls that
+// are not sanitizers pass their receiver and every argument on to their result (the
+// conservative choice for the string helpers this is used on). It returns the first raw
+// path found.
+func (f *Fn) flowsOnlyVia(e ast.Expr, isSource func(ast.Expr) bool, isSanitizer func(*ast.CallExpr) bool) (bool, string) {
+	busy := map[*types.Var]bool{}
+	var walk func(e ast.Expr, depth int) (bool, string)
+	walk = func(e ast.Expr, depth int) (bool, string) {
+		e = ast.Unparen(e)
+		if e == nil || depth > 24 {
+			return true, ""
+		}
+		if isSource(e) {
+			return false, f.Str(e)
+		}
+		switch x := e.(type) {
+		case *ast.Ident:
+			v := f.varOf(x)
+			if v == nil || busy[v] {
+				return true, ""
+			}
+			busy[v] = true
+			defer delete(busy, v)
+			for _, d := range f.defsOf(v) {
+				if ok, w := walk(d.rhs, depth+1); !ok {
+					return false, x.Name + " <- " + w
+				}
+			}
+			return true, ""
+		case *ast.CallExpr:
+			if isSanitizer(x) {
+				return true, ""
+			}
+			if tv, ok := f.Info.Types[x.Fun]; ok && tv.IsType() {
+				return walk(x.Args[0], depth+1)
+			}
+			if sel, ok := ast.Unparen(x.Fun).(*ast.SelectorExpr); ok {
+				if _, isPkg := f.Info.ObjectOf(rootIdentOrNil(sel.X)).(*types.PkgName); !isPkg {
+					if ok, w := walk(sel.X, depth+1); !ok {
+						return false, f.Str(x.Fun) + "(..) <- " + w
+					}
+				}
+			}
+			for _, a := range x.Args {
+				if ok, w := walk(a, depth+1); !ok {
+					return false, f.Str(x.Fun) + "(..) <- " + w
+				}
+			}
+			return true, ""
+		case *ast.BinaryExpr:
+			if ok, w := walk(x.X, depth+1); !ok {
+				return false, w
+			}
+			return walk(x.Y, depth+1)
+		case *ast.UnaryExpr:
+			return walk(x.X, depth+1)
+		case *ast.StarExpr:
+			return walk(x.X, depth+1)
+		case *ast.IndexExpr:
+			return walk(x.X, depth+1)
+		case *ast.SliceExpr:
+			return walk(x.X, depth+1)
+		case *ast.SelectorExpr:
+			return walk(x.X, depth+1)
+		case *ast.TypeAssertExpr:
+			return walk(x.X, depth+1)
+		case *ast.CompositeLit:
+			for _, el := range x.Elts {
+				if kv, ok := el.(*ast.KeyValueExpr); ok {
+					el = kv.Value
+				}
+				if ok, w := walk(el, depth+1); !ok {
+					return false, w
+				}
+			}
+		}
+		return true, ""
+	}
+	return walk(e, 0)
+}
+
+func rootIdentOrNil(e ast.Expr) *ast.Ident {
+	if id, ok := ast.Unparen(e).(*ast.Ident); ok {
+		return id
+	}
+	return &ast.Ident{Name: "_"}
+}
+
+// conjuncts splits e at its top-level && operators.
+func conjuncts(e ast.Expr) []ast.Expr {
+	e = ast.Unparen(e)
+	if be, ok := e.(*ast.BinaryExpr); ok && be.Op == token.LAND {
+		return append(conjuncts(be.X), conjuncts(be.Y)...)
+	}
+	return []ast.Expr{e}
+}
